@@ -91,6 +91,16 @@ add("C08",
     "The data transformation of cell-mapping operations is taken from C07/C12; selections use interior coordinates "
     "(no face ties); 'norm' threshold probed a decade away from 1e-8.")
 
+add("C09",
+    "Hypothesis-generated fields and foreign files with an independent OVF reader/writer; exhaustive enumeration of "
+    "every truncation point and every single-bit corruption of the check value of small binary files",
+    "Round trip, an independent OVF 2.0 decoder on the written bytes, and files from an independent OVF 1.0/2.0 writer "
+    "are explored by generated-input search; the fault clause is decided by complete enumeration for the generated "
+    "files: every prefix of the file and every single-bit flip / replacement of the check value must be rejected or "
+    "(prefixes that contain the whole data block) read to the original field.",
+    "pbt/ref/ovf_ref.py (written from the OVF specification) is trusted; units/labels without whitespace; text "
+    "truncation is not asserted (the property names binary files).", category="fault_enumeration")
+
 PENDING = {}
 
 
